@@ -144,17 +144,25 @@ def _snap_list(obj):
 
 
 def _defaults_state(pm):
+    """Default argument objects of every function defined at the top of the package module (minify, awslambda,
+    whatever a refactor adds), the class-level attributes of RemoveAnnotationsOptions and the state of every
+    RemoveAnnotationsOptions instance found among those defaults."""
+    import types
     from python_minifier.transforms.remove_annotations_options import RemoveAnnotationsOptions as R
-    d = pm.minify.__defaults__
-    items = []
-    for x in d:
+
+    def render(x):
         if isinstance(x, R):
-            items.append(['RAO'] + [getattr(x, f) for f in RAO_FIELDS] + [sorted(vars(x))])
-        else:
-            items.append(repr(x))
-    cls = [R.__dict__.get(f) for f in RAO_FIELDS]
-    kw = repr(pm.minify.__kwdefaults__)
-    return [items, cls, kw, repr(pm.awslambda.__defaults__)]
+            return ['RAO'] + [repr(getattr(x, f, None)) for f in RAO_FIELDS] + [sorted(vars(x))]
+        return repr(x)
+
+    items = []
+    for name in sorted(vars(pm)):
+        fn = vars(pm)[name]
+        if isinstance(fn, types.FunctionType) and fn.__module__ == pm.__name__:
+            items.append([name, [render(x) for x in (fn.__defaults__ or ())],
+                          sorted((k, render(v)) for k, v in (fn.__kwdefaults__ or {}).items())])
+    cls = [repr(R.__dict__.get(f)) for f in RAO_FIELDS]
+    return [items, cls]
 
 
 def run_api_job(spec):
@@ -278,6 +286,8 @@ def run_api_job(spec):
                           explicit=sp.get('explicit'), expected_steps=sp.get('expected_steps', 20000),
                           want_log=want_sched)
         sched.events = events
+        from sim import simlock
+        simlock.CURRENT['sched'] = sched
         per_thread = [[] for _ in range(nthreads)]
         for idx, call in enumerate(calls):
             per_thread[call.get('th', 0) % nthreads].append(idx)
@@ -308,11 +318,13 @@ def run_api_job(spec):
         sched.start()
         for t in threads:
             t.join()
+        simlock.CURRENT['sched'] = None
         if errors:
             return {'harness_error': 'thread body failed: ' + errors[0]}
         result['steps'] = sched.steps
         result['switches'] = sched.switches
         result['step_cap'] = sched.capped
+        result['lock_waits'] = sched.lock_waits
         result['overlap'] = sorted(list(p) for p in sched.overlap)
         result['sched_sig'] = hashlib.sha256(repr(sched.sig).encode()).hexdigest()[:16]
         if want_sched:
